@@ -261,6 +261,12 @@ class AsyncHTTP2Connection(AsyncConnectionInterface):
                 # something that another stream has read from the network.
                 if self._read_exception is not None:
                     raise self._read_exception
+                # The stream may have been reset while the request was still
+                # being sent - by the server, or by the h2 state on its behalf
+                # after a frame that was invalid for the stream. That is not a
+                # mistake of the caller's.
+                if isinstance(exc, h2.exceptions.StreamClosedError):
+                    raise RemoteProtocolError(exc)
                 # If h2 raises a protocol error in some other state then we
                 # must somehow have made a protocol violation.
                 raise LocalProtocolError(exc)  # pragma: nocover
